@@ -228,7 +228,7 @@ fn draw_text(p: &mut Prng, surface: Surface) -> String {
 }
 
 fn spec_small(p: &mut Prng) -> TxSpec {
-    let mut s = TxSpec::draw(p, 4, 4);
+    let mut s = TxSpec::draw_with_corpus(p, 4, 4, 5);
     s.max_blob = s.max_blob.min(300);
     s
 }
@@ -381,7 +381,7 @@ impl SurfaceWorld {
     }
     fn pset_ops(&self, ctx: &mut Ctx, seed: u64) {
         let mut p = Prng::from_u64(seed);
-        let mut sa = PsetSpec::draw(&mut p);
+        let mut sa = PsetSpec::draw_with_corpus(&mut p, 6);
         sa.utxos = p.coin();
         let a = psetgen::pset(&sa);
         self.pset_accessors(ctx, &a, 0);
